@@ -258,7 +258,7 @@ ensures
              params="mut outcomes: Vec<Node>, probs: Vec<f64>, info: Option<CI>, chance_infosets: &mut CT",
              ret="out", ret_type="Result<Node, GameError>",
              obligation="C11.V.init_recurse.chance_dispatch", rules=[], allow_return=True,
-             body_subst=[(r"(?s)_ => \{\s*// renormalize to make sure consistency.*Ok\(Node::Chance\(Chance::new\(outcomes, ind\)\)\)\s*\}", "_ => __abs_chance_node(chance_infosets, info, probs, outcomes),", "R6 multi-outcome arm (renormalisation + interning) abstracted")],
+             body_subst=[(r"(?s)_ => \{\s*(?://[^\n]*\n\s*)*let total: f64 = probs\.iter\(\)\.sum\(\);.*Ok\(Node::Chance\(Chance::new\(outcomes, ind\)\)\)\s*\}", "_ => __abs_chance_node(chance_infosets, info, probs, outcomes),", "R6 multi-outcome arm (renormalisation + interning) abstracted")],
              contract="""ensures
     // every chance node has at least one outcome; a chance node with ONE outcome is no chance node (its
     // subtree takes its place); otherwise the node is interned
